@@ -104,4 +104,159 @@ FlatText(ps) == IF ps = <<>> THEN <<>>
                 ELSE PathText(Head(ps).path, [j \in 1..Len(Head(ps).path) |-> 0], <<46>>, 1) \o <<32, 61, 32>>
                      \o ValueTextD(Head(ps).val) \o (IF Len(ps) > 1 THEN <<44, 32>> ELSE <<>>) \o FlatText(Tail(ps))
 ValueTextD(v) == IF v.k = "t" THEN <<123>> \o FlatText(FlatPairs(v.v, <<>>)) \o <<125>> ELSE ValueText(v)
+
+(***************************************************************************)
+(* Spelling sets: every way the grammar allows to write one abstract value *)
+(* (within stated bounds).  The generator is deliberately able to spell    *)
+(* out-of-range numbers too: validity is decided by the recogniser.        *)
+(***************************************************************************)
+\* all placements of underscores between the characters of cs
+RECURSIVE UsAll(_)
+UsAll(cs) == IF Len(cs) <= 1 THEN {cs}
+             ELSE LET rest == UsAll(Tail(cs)) IN
+                  {<<Head(cs)>> \o r : r \in rest} \cup {<<Head(cs), 95>> \o r : r \in rest}
+RECURSIVE UsEvery(_)
+UsEvery(cs) == IF Len(cs) <= 1 THEN cs ELSE <<Head(cs), 95>> \o UsEvery(Tail(cs))
+\* a few placements for long sequences: none, first gap, last gap, every gap
+UsSome(cs) == IF Len(cs) <= 1 THEN {cs}
+              ELSE {cs, <<Head(cs), 95>> \o Tail(cs), SubSeq(cs, 1, Len(cs) - 1) \o <<95, cs[Len(cs)]>>, UsEvery(cs)}
+Us(cs) == IF Len(cs) <= 5 THEN UsAll(cs) ELSE UsSome(cs)
+
+\* decimal digit sequence -> digits in base b (schoolbook division)
+RECURSIVE DivSmallAcc(_, _, _, _)
+DivSmallAcc(d, b, rem, q) ==
+  IF d = <<>> THEN [q |-> q, r |-> rem]
+  ELSE LET cur == rem * 10 + Head(d) IN DivSmallAcc(Tail(d), b, cur % b, Append(q, cur \div b))
+RECURSIVE StripZ(_)
+StripZ(d) == IF Len(d) > 1 /\ d[1] = 0 THEN StripZ(Tail(d)) ELSE d
+DivSmall(d, b) == LET x == DivSmallAcc(d, b, 0, <<>>) IN [q |-> StripZ(x.q), r |-> x.r]
+RECURSIVE ToBase(_, _)
+ToBase(d, b) == IF d = <<0>> THEN <<>> ELSE LET x == DivSmall(d, b) IN Append(ToBase(x.q, b), x.r)
+BaseDigits(d, b) == IF d = <<0>> THEN <<0>> ELSE ToBase(d, b)
+LowerHex(ds) == [i \in 1..Len(ds) |-> IF ds[i] < 10 THEN 48 + ds[i] ELSE 87 + ds[i]]
+UpperHex(ds) == [i \in 1..Len(ds) |-> IF ds[i] < 10 THEN 48 + ds[i] ELSE 55 + ds[i]]
+MixedHex(ds) == [i \in 1..Len(ds) |-> IF ds[i] < 10 THEN 48 + ds[i] ELSE IF i % 2 = 0 THEN 55 + ds[i] ELSE 87 + ds[i]]
+
+\* integer with magnitude digits d (decimal, no leading zeros) and sign neg
+IntSpellings(neg, d) ==
+  LET dec == Us(DigitChars(d))
+      sdec == IF neg THEN {<<45>> \o x : x \in dec} ELSE dec \cup {<<43>> \o x : x \in dec}
+      hx == BaseDigits(d, 16) oc == BaseDigits(d, 8) bn == BaseDigits(d, 2)
+      pre(p, cs) == {<<48, p>> \o x : x \in UsSome(cs)} \cup {<<48, p, 48>> \o cs, <<48, p, 48, 95>> \o cs}
+      based == pre(120, LowerHex(hx)) \cup pre(120, UpperHex(hx)) \cup pre(120, MixedHex(hx))
+               \cup pre(111, LowerHex(oc)) \cup pre(98, LowerHex(bn))
+  IN IF neg \/ Len(bn) > 70 THEN sdec ELSE sdec \cup based
+
+Zeros(n) == [i \in 1..n |-> 48]
+\* finite float with significant digits d (n >= 1, d[1] # 0) and exponent e of the leading digit
+FinSpellings(d, e) ==
+  LET n == Len(d)
+      dc == DigitChars(d)
+      frac == IF n = 1 THEN <<48>> ELSE Tail(dc)
+      abse == IF e < 0 THEN 0 - e ELSE e
+      expforms(x) == LET a == IF x < 0 THEN 0 - x ELSE x IN
+                     IF x < 0 THEN {<<45>> \o NatText(a), <<45, 48>> \o NatText(a)}
+                     ELSE {NatText(a), <<43>> \o NatText(a), <<48>> \o NatText(a), <<43, 48, 48>> \o NatText(a)}
+      sci == {<<dc[1], 46>> \o frac \o <<m>> \o x : m \in {101, 69}, x \in expforms(e)}
+      sciint == IF n = 1 THEN {<<dc[1], m>> \o x : m \in {101, 69}, x \in expforms(e)} ELSE {}
+      shifted == {dc \o <<101>> \o x : x \in expforms(e - (n - 1))}
+                 \cup (IF n >= 2 /\ n <= 6 THEN {u \o <<46, 48, 101>> \o x : u \in Us(dc), x \in {IF e - (n - 1) < 0 THEN <<45>> \o NatText((n - 1) - e) ELSE NatText(e - (n - 1))}} ELSE {})
+      pos == IF e >= 0 /\ e <= 20 THEN
+               (IF e + 1 >= n THEN {dc \o Zeros(e + 1 - n) \o <<46, 48>>, dc \o Zeros(e + 1 - n) \o <<46, 48, 48>>}
+                ELSE {SubSeq(dc, 1, e + 1) \o <<46>> \o SubSeq(dc, e + 2, n), SubSeq(dc, 1, e + 1) \o <<46>> \o SubSeq(dc, e + 2, n) \o <<48>>})
+             ELSE IF e < 0 /\ e >= 0 - 8 THEN {<<48, 46>> \o Zeros(abse - 1) \o dc, <<48, 46>> \o Zeros(abse - 1) \o dc \o <<48, 48>>}
+             ELSE {}
+  IN sci \cup sciint \cup shifted \cup pos
+
+FloatSpellings(v) ==
+  LET body == CASE v.c = "inf" -> {<<105, 110, 102>>}
+                [] v.c = "nan" -> {<<110, 97, 110>>}
+                [] v.c = "zero" -> {<<48, 46, 48>>, <<48, 101, 48>>, <<48, 46, 48, 48, 101, 45, 48>>, <<48, 69, 43, 48, 48>>, <<48, 46, 48, 101, 49, 48>>}
+                [] OTHER -> FinSpellings(v.d, v.e)
+  IN IF v.neg THEN {<<45>> \o x : x \in body} ELSE body \cup {<<43>> \o x : x \in body}
+
+\* \UXXXXXXXX
+EscU8(c) == <<92, 85, 48, 48, HexDigit(c \div 1048576), HexDigit((c \div 65536) % 16), HexDigit((c \div 4096) % 16),
+              HexDigit((c \div 256) % 16), HexDigit((c \div 16) % 16), HexDigit(c % 16)>>
+UpperEsc(x) == [i \in 1..Len(x) |-> IF i > 2 /\ x[i] >= 97 /\ x[i] <= 102 THEN x[i] - 32 ELSE x[i]]
+MapChars(s, f(_)) == Cat([i \in 1..Len(s) |-> f(s[i])])
+\* character in a multi-line basic body: line feeds raw, the rest as in a basic string
+MlBasicChar(c) == IF c = 10 THEN <<10>> ELSE BasicChar(c)
+MlBasicCharCrlf(c) == IF c = 10 THEN <<13, 10>> ELSE BasicChar(c)
+HasRun3(s, q) == \E i \in 1..(Len(s) - 2) : s[i] = q /\ s[i + 1] = q /\ s[i + 2] = q
+MlLiteralOk(s) == /\ \A i \in 1..Len(s) : LiteralChar(s[i]) \/ s[i] = 10 \/ s[i] = 39
+                  /\ ~HasRun3(s, 39)
+Q3 == <<34, 34, 34>>
+A3 == <<39, 39, 39>>
+\* every spelling of the string s as a value
+StringSpellings(s) ==
+  LET basic == {BasicString(s),
+                <<34>> \o MapChars(s, LAMBDA c : IF c < 65536 THEN EscU4(c) ELSE EscU8(c)) \o <<34>>,
+                <<34>> \o MapChars(s, LAMBDA c : UpperEsc(EscU8(c))) \o <<34>>}
+      lit == IF IsLiteralOk(s) THEN {<<39>> \o s \o <<39>>} ELSE {}
+      body == MapChars(s, MlBasicChar)
+      startsSafe == s = <<>> \/ (~IsWs(s[1]) /\ s[1] # 10)
+      mlb == {Q3 \o <<10>> \o body \o Q3,
+              Q3 \o <<13, 10>> \o MapChars(s, MlBasicCharCrlf) \o Q3}
+             \cup (IF startsSafe THEN {Q3 \o <<92, 10, 32, 9, 10>> \o body \o <<92, 32, 13, 10>> \o Q3} ELSE {})
+             \cup (IF s = <<>> \/ s[1] # 10 THEN {Q3 \o body \o Q3} ELSE {})
+             \cup {Q3 \o <<10>> \o MapChars(SubSeq(s, 1, i), MlBasicChar) \o <<92, 32, 32, 10, 10, 9>> \o MapChars(SubSeq(s, i + 1, Len(s)), MlBasicChar) \o Q3
+                     : i \in {j \in 1..(Len(s) - 1) : ~IsWs(s[j + 1]) /\ s[j + 1] # 10}}
+      \* quotes written raw inside a multi-line basic string where the grammar allows (runs of at most two)
+      rawq == IF (\A i \in 1..Len(s) : BasicUnescaped(s[i]) \/ s[i] = 34 \/ s[i] = 10) /\ ~HasRun3(s, 34)
+              THEN {Q3 \o <<10>> \o s \o Q3} ELSE {}
+      mll == IF MlLiteralOk(s) THEN {A3 \o <<10>> \o s \o A3} \cup (IF s = <<>> \/ s[1] # 10 THEN {A3 \o s \o A3} ELSE {}) ELSE {}
+  IN basic \cup lit \cup mlb \cup rawq \cup mll
+
+\* every spelling of s as a key
+KeySpellings(s) ==
+  {BasicString(s), <<34>> \o MapChars(s, LAMBDA c : IF c < 65536 THEN EscU4(c) ELSE EscU8(c)) \o <<34>>}
+  \cup (IF IsBareKey(s) THEN {s} ELSE {})
+  \cup (IF IsLiteralOk(s) THEN {<<39>> \o s \o <<39>>} ELSE {})
+
+RECURSIVE StripTrailChars(_)
+StripTrailChars(cs) == IF cs # <<>> /\ cs[Len(cs)] = 48 THEN StripTrailChars(SubSeq(cs, 1, Len(cs) - 1)) ELSE cs
+DateText(dt) == Pad4(dt[1]) \o <<45>> \o Pad2(dt[2]) \o <<45>> \o Pad2(dt[3])
+TimeSpellings(tm) ==
+  LET hms == Pad2(tm[1]) \o <<58>> \o Pad2(tm[2]) \o <<58>> \o Pad2(tm[3])
+      nine == PadLeft(NatText(tm[4]), 9)
+  IN IF tm[4] = 0 THEN {hms, hms \o <<46, 48>>, hms \o <<46>> \o Zeros(9), hms \o <<46>> \o Zeros(12)}
+     ELSE {hms \o <<46>> \o StripTrailChars(nine), hms \o <<46>> \o nine, hms \o <<46>> \o nine \o <<57, 56, 55>>}
+OffsetSpellings(o) ==
+  CASE o.t = "N" -> {<<>>}
+    [] o.t = "Z" -> {<<90>>, <<122>>}
+    [] OTHER -> LET a == IF o.m < 0 THEN 0 - o.m ELSE o.m IN
+                {(IF o.m < 0 THEN <<45>> ELSE <<43>>) \o Pad2(a \div 60) \o <<58>> \o Pad2(a % 60)}
+                \cup (IF o.m = 0 THEN {<<45, 48, 48, 58, 48, 48>>} ELSE {})
+DatetimeSpellings(v) ==
+  IF v.time = <<>> THEN {DateText(v.date)}
+  ELSE IF v.date = <<>> THEN TimeSpellings(v.time)
+  ELSE {DateText(v.date) \o <<dl>> \o t \o o : dl \in {84, 116, 32}, t \in TimeSpellings(v.time), o \in OffsetSpellings(v.off)}
+
+ScalarSpellings(v) ==
+  CASE v.k = "s" -> StringSpellings(v.v)
+    [] v.k = "i" -> IntSpellings(v.neg, v.d)
+    [] v.k = "f" -> FloatSpellings(v)
+    [] v.k = "dt" -> DatetimeSpellings(v)
+    [] v.k = "b" -> {ValueText(v)}
+
+\* ---- containers: layouts of given element / pair texts ----
+WsSet == {<<>>, <<32>>, <<9>>, <<32, 9, 32>>}
+CommentSet == {<<>>, <<35>>, <<35, 32, 99>>, <<35, 9, 233, 128512, 32>>}
+ArrayLayouts(es) ==
+  LET n == Len(es) IN
+  IF n = 0 THEN {<<91, 93>>, <<91, 32, 93>>, <<91, 10, 93>>, <<91, 32, 35, 99, 10, 9, 93>>, <<91, 13, 10, 13, 10, 93>>}
+  ELSE {<<91>> \o Join(es, <<44>>) \o <<93>>,
+        <<91, 32>> \o Join(es, <<32, 44, 32>>) \o <<32, 93>>,
+        <<91>> \o Join(es, <<44, 32>>) \o <<44, 93>>,
+        <<91>> \o Join(es, <<44, 32>>) \o <<32, 44, 32, 93>>,
+        <<91, 10, 32, 32>> \o Join(es, <<44, 10, 32, 32>>) \o <<10, 93>>,
+        <<91, 13, 10, 9>> \o Join(es, <<44, 13, 10, 9>>) \o <<44, 13, 10, 93>>,
+        <<91, 32, 35, 32, 99, 10>> \o Join(es, <<32, 35, 99, 10, 44, 35, 10>>) \o <<35, 99, 49, 13, 10, 35, 10, 93>>}
+\* ps = texts "key = value"
+InlineLayouts(ps) ==
+  IF Len(ps) = 0 THEN {<<123, 125>>, <<123, 32, 125>>, <<123, 9, 32, 125>>}
+  ELSE {<<123>> \o Join(ps, <<44>>) \o <<125>>,
+        <<123, 32>> \o Join(ps, <<44, 32>>) \o <<32, 125>>,
+        <<123, 9>> \o Join(ps, <<32, 44, 9>>) \o <<9, 125>>}
 =============================================================================
